@@ -676,7 +676,7 @@ func (wr *Writer) appendSlice(rv reflect.Value, depth int, si *sinfo) {
 func (wr *Writer) appendMap(rv reflect.Value, depth int, si *sinfo) {
 	keys := rv.MapKeys()
 	if wr.Sort {
-		sort.Slice(keys, func(i, j int) bool { return 0 > strings.Compare(keys[i].String(), keys[j].String()) })
+		sort.Slice(keys, func(i, j int) bool { return 0 > strings.Compare(keyString(keys[i]), keyString(keys[j])) })
 	}
 	d2 := depth + 1
 	var is string
@@ -720,7 +720,7 @@ func (wr *Writer) appendMap(rv reflect.Value, depth int, si *sinfo) {
 		switch rm.Kind() {
 		case reflect.Struct:
 			wr.buf = append(wr.buf, cs...)
-			wr.buf = wr.appendString(wr.buf, kv.String(), !wr.HTMLUnsafe)
+			wr.buf = wr.appendString(wr.buf, keyString(kv), !wr.HTMLUnsafe)
 			wr.buf = append(wr.buf, ": "...)
 			wr.appendStruct(rm, d2, si)
 		case reflect.Slice, reflect.Array:
@@ -728,7 +728,7 @@ func (wr *Writer) appendMap(rv reflect.Value, depth int, si *sinfo) {
 				continue
 			}
 			wr.buf = append(wr.buf, cs...)
-			wr.buf = wr.appendString(wr.buf, kv.String(), !wr.HTMLUnsafe)
+			wr.buf = wr.appendString(wr.buf, keyString(kv), !wr.HTMLUnsafe)
 			wr.buf = append(wr.buf, ": "...)
 			wr.appendSlice(rm, d2, si)
 		case reflect.Map:
@@ -736,7 +736,7 @@ func (wr *Writer) appendMap(rv reflect.Value, depth int, si *sinfo) {
 				continue
 			}
 			wr.buf = append(wr.buf, cs...)
-			wr.buf = wr.appendString(wr.buf, kv.String(), !wr.HTMLUnsafe)
+			wr.buf = wr.appendString(wr.buf, keyString(kv), !wr.HTMLUnsafe)
 			wr.buf = append(wr.buf, ": "...)
 			wr.appendMap(rm, d2, si)
 		case reflect.String:
@@ -744,12 +744,12 @@ func (wr *Writer) appendMap(rv reflect.Value, depth int, si *sinfo) {
 				continue
 			}
 			wr.buf = append(wr.buf, cs...)
-			wr.buf = wr.appendString(wr.buf, kv.String(), !wr.HTMLUnsafe)
+			wr.buf = wr.appendString(wr.buf, keyString(kv), !wr.HTMLUnsafe)
 			wr.buf = append(wr.buf, ": "...)
 			wr.appendJSON(rm.Interface(), d2)
 		default:
 			wr.buf = append(wr.buf, cs...)
-			wr.buf = wr.appendString(wr.buf, kv.String(), !wr.HTMLUnsafe)
+			wr.buf = wr.appendString(wr.buf, keyString(kv), !wr.HTMLUnsafe)
 			wr.buf = append(wr.buf, ": "...)
 			wr.appendJSON(rm.Interface(), d2)
 		}
